@@ -121,6 +121,8 @@ class Emitter:
     def __init__(self, tbl: G.Table, ns: dict):
         self.tbl, self.ns = tbl, ns
         self.specs: dict = {}       # generic specialisations met while emitting types: id -> ("gdata", name, args)
+        self.tenv: dict = {}        # binding of the type variables while the fields of a specialisation are emitted
+        self.cur_arg = None         # type argument of the specialisation whose fields are being emitted
 
     def flatten_union(self, members):
         """typing flattens nested unions and removes duplicate members (by type equality)"""
@@ -214,8 +216,21 @@ class Emitter:
             return f"(TData {coq_str(t[1])})"
         if k == "gdata":
             # a specialisation G[int] is a class of its own (type arguments substituted) with the bare name G
+            if self.cur_arg is not None and self.cur_arg != t[2][0] and any(G.contains_tvar(f["type"]) for f in self.tbl.by_name[t[1]]["fields"]):
+                # G2[date] inside G1[int] (same type variable): the schema builder resolves G2's variable with G1's binding
+                # (known finding schema-nested-generic-same-typevar; such tables are left to the oracle)
+                raise OutOfModel("generic nested in a specialisation")
             return f"(TData {coq_str(self.spec_id(t))})"
         if k == "tvar":
+            if t[1] in self.tenv:
+                # the schema builder (and the serializer) substitute the variable where it stands: Optional[T] with
+                # T = Optional[str] is described as anyOf[anyOf[string, null], null] (typing would flatten the substituted type)
+                arg, saved = self.tenv[t[1]], self.tenv
+                self.tenv = {}
+                try:
+                    return self.ty(arg)
+                finally:
+                    self.tenv = saved
             return "TAny"           # an unbound TypeVar (class used without arguments)
         if k == "nt":
             return f"(TNamed {coq_str(t[1])})"
@@ -240,13 +255,21 @@ class Emitter:
                 key = f["alias"] if f["alias"] is not None else f["name"]
                 # observed rendering: a field declared as the bare TypeVar stays {} (Any) in the schema of a specialisation,
                 # a TypeVar nested in the field type (List[T], Optional[T]) is replaced by the type argument
-                fty = "TAny" if f["type"][0] == "tvar" else self.ty(G.subst(f["type"], tenv))
+                # (f_tv: the serializer and `required` work with the type the variable is bound to, the schema is {})
+                is_tv = f["type"][0] == "tvar" and bool(tenv)
+                self.tenv = dict(tenv)
+                self.cur_arg = tenv.get("T")
+                try:
+                    fty = self.ty(f["type"])
+                finally:
+                    self.tenv = {}
+                    self.cur_arg = None
                 fser = "None"
                 if (f.get("ser") or ("",))[0] == "fn":
                     fser = f"(Some {self.ty(f['ser'][1])})"     # the schema describes the return annotation of the function
                 fs.append(f"(mkF {coq_str(f['name'])} {coq_str(key)} {fty} "
                           f"{cbool(f['default'] is not None)} {cbool(f['init'])} {ov[f.get('nt_override')]} "
-                          f"{cbool(f['default'] is not None and f['default'][1] == 'None')} {fser})")
+                          f"{cbool(f['default'] is not None and f['default'][1] == 'None')} {fser} {cbool(is_tv)})")
             cfg = d.get("cfg") or {}
             return f"(mkC {coq_str(cid)} {coq_str(d['clsname'])} {cl(fs)} {cbool(cfg.get('nt_as_dict'))} {cbool(cfg.get('omit_none'))})"
         for d in self.tbl.decls:
@@ -255,14 +278,14 @@ class Emitter:
             if d["kind"] == "data":
                 classes.append(data_entry(d, d["name"], {}))
             elif d["kind"] == "nt":
-                fs = [f"(mkF {coq_str(f['name'])} {coq_str(f['name'])} {self.ty(f['type'])} {cbool(f['default'] is not None)} true None false None)"
+                fs = [f"(mkF {coq_str(f['name'])} {coq_str(f['name'])} {self.ty(f['type'])} {cbool(f['default'] is not None)} true None false None false)"
                       for f in d["fields"]]
                 nts.append(f"(mkC {coq_str(d['name'])} {coq_str(d['clsname'])} {cl(fs)} false false)")
             elif d["kind"] == "td":
                 fs = []
                 for f in d["fields"]:
                     required = (d["total"] and f["marker"] != "NotRequired") or f["marker"] == "Required"
-                    fs.append(f"(mkF {coq_str(f['name'])} {coq_str(f['name'])} {self.ty(f['type'])} {cbool(not required)} true None false None)")
+                    fs.append(f"(mkF {coq_str(f['name'])} {coq_str(f['name'])} {self.ty(f['type'])} {cbool(not required)} true None false None false)")
                 typeds.append(f"(mkC {coq_str(d['name'])} {coq_str(d['clsname'])} {cl(fs)} false false)")
             elif d["kind"] == "enum":
                 vals = [json_term(m.value) for m in self.ns[d["name"]]]
@@ -299,13 +322,8 @@ class Emitter:
             out = []
             for f in d["fields"]:
                 fv = getattr(v, f["name"])
-                if f["type"][0] == "tvar":          # model type TAny: the value by its basic form at the type argument
-                    from mashumaro.codecs.basic import BasicEncoder
-                    import json as _json
-                    enc = BasicEncoder(eval(G.ty_src(env["T"], self.tbl, []), self.ns)).encode(fv)
-                    out.append(f"({coq_str(f['name'])}, (VRaw {json_term(_json.loads(_json.dumps(enc)))}))")
-                else:
-                    out.append(f"({coq_str(f['name'])}, {self.value(G.subst(f['type'], env), fv)})")
+                # a field declared as the bare type variable holds a value of the type argument
+                out.append(f"({coq_str(f['name'])}, {self.value(G.subst(f['type'], env), fv)})")
             return "(VObj " + cl(out) + ")"
         if k == "any":
             return f"(VRaw {json_term(plain_json(v))})"
@@ -475,7 +493,8 @@ def union_safe(t, tbl, em: "Emitter", seen=None) -> bool:
         if t[1] in seen:
             return True
         seen.add(t[1])
-        return all(union_safe(f["type"], tbl, em, seen) for f in tbl.by_name[t[1]]["fields"])
+        tenv = {"T": t[2][0]} if t[0] == "gdata" else {}
+        return all(union_safe(G.subst(f["type"], tenv), tbl, em, seen) for f in tbl.by_name[t[1]]["fields"])
     for x in t[1:]:
         if isinstance(x, tuple) and not union_safe(x, tbl, em, seen):
             return False
